@@ -1,11 +1,11 @@
 (* AdfChildTab.v -- executable model of a node's sub-node table, the on-disk child list of ADF (property C02,
    extension C02b).  Definitions only.
 
-   Transcribed from src/adf/ADF_internals.c:
+   Transcribed from src/adf/ADF_internals.c (line numbers of /repo def473d):
      ADFI_add_2_sub_node_table (642-778): capacity 0 -> LIST_CHUNK, else (unsigned)((float)capacity * 1.5); the old
         table is read, entries [num_sub_nodes, capacity) are blanked, the new entry goes to position num_sub_nodes;
-     ADFI_delete_from_sub_node_table (2799-2892): first entry with the child's disk pointer, the rest moves up;
-     ADFI_check_4_child_name (1592-1683) with ADFI_compare_node_names (1817-1857);
+     ADFI_delete_from_sub_node_table (2826-2919): first entry with the child's disk pointer, the rest moves up;
+     ADFI_check_4_child_name (1618-1709) with ADFI_compare_node_names (1844-1884);
      the table part of ADF_Put_Name (ADF_interface.c 2530-2570): the entry found by name gets the new name in place.
    The table is the parent's header fields entries_for_sub_nodes / num_sub_nodes plus the array of
    (32-byte blank-padded name, child disk pointer).  (float)capacity is exact below 2^24 entries; above that the
